@@ -9,6 +9,8 @@ V=${VERIF_ROOT:-$(cd "$(dirname "$0")/.." && pwd)}
 mkdir -p "$OUT"
 INC="-I$V/sim/platform -I$V/sim/rt -I$V/sim/interp -I$REPO/platform -I$REPO/platform/posix -I$REPO/public -I$REPO/internal"
 COMMON="-O1 -g -fPIC -fno-omit-frame-pointer -DGOOGLE_NSYNC_VERIF -Wno-unused-command-line-argument"
+# SIM_FUZZ=1: also instrument nsync for libFuzzer coverage feedback (the interpreter stays uninstrumented)
+TS="-fsanitize=thread"; [ -n "$SIM_FUZZ" ] && TS="-fsanitize=thread,fuzzer-no-link"
 case "$FL" in
   gcc_new) CC="clang"; LANGF=""; DEFS="";;
   c11)     CC="clang"; LANGF="-std=gnu11"; DEFS="-DNSYNC_ATOMIC_C11";;
@@ -19,15 +21,15 @@ SEMREN="-Dnsync_mu_semaphore_init=nsync_mu_semaphore_init_futex -Dnsync_mu_semap
 SRCS="common counter cv debug dll mu mu_wait note once sem_wait time_internal wait"
 pids=()
 for s in $SRCS; do
-  $CC $LANGF $COMMON -fsanitize=thread $DEFS $INC -c $REPO/internal/$s.c -o $OUT/$s.o & pids+=($!)
+  $CC $LANGF $COMMON $TS $DEFS $INC -c $REPO/internal/$s.c -o $OUT/$s.o & pids+=($!)
 done
 if [ "$FL" = cpp11 ]; then
-  $CC $LANGF $COMMON -fsanitize=thread $DEFS $INC -c $REPO/platform/c++11/src/time_rep_timespec.cc -o $OUT/time_rep.o & pids+=($!)
+  $CC $LANGF $COMMON $TS $DEFS $INC -c $REPO/platform/c++11/src/time_rep_timespec.cc -o $OUT/time_rep.o & pids+=($!)
 else
-  $CC $LANGF $COMMON -fsanitize=thread $DEFS $INC -c $REPO/platform/posix/src/time_rep.c -o $OUT/time_rep.o & pids+=($!)
+  $CC $LANGF $COMMON $TS $DEFS $INC -c $REPO/platform/posix/src/time_rep.c -o $OUT/time_rep.o & pids+=($!)
 fi
-$CC $LANGF $COMMON -fsanitize=thread $DEFS $INC $SEMREN -c $REPO/platform/linux/src/nsync_semaphore_futex.c -o $OUT/sem_futex.o & pids+=($!)
-$CC $LANGF $COMMON -fsanitize=thread $DEFS $INC -c $V/sim/platform/src/sim_platform.c -o $OUT/sim_platform.o & pids+=($!)
+$CC $LANGF $COMMON $TS $DEFS $INC $SEMREN -c $REPO/platform/linux/src/nsync_semaphore_futex.c -o $OUT/sem_futex.o & pids+=($!)
+$CC $LANGF $COMMON $TS $DEFS $INC -c $V/sim/platform/src/sim_platform.c -o $OUT/sim_platform.o & pids+=($!)
 # the interpreter: NOT tsan-instrumented
 $CC $LANGF $COMMON $DEFS $INC -Wall -Wno-unused-function -Werror=implicit-function-declaration -c $V/sim/interp/interp.c -o $OUT/interp.o & pids+=($!)
 rc=0
